@@ -1018,6 +1018,11 @@ func main() {
 		hugeImage(r)
 	}
 	divOps(r)
+	if dht, err := newRefTables(); err != nil {
+		r.Fail("header:dht-unreadable", "the DHT segments of a Reset header cannot be read back: "+err.Error(), "reset 0 3 8 8 - -")
+	} else {
+		perFunctionOps(r, dht)
+	}
 	dctChecks(r)
 	allocCheck(r) // last, so that a failing case with a replayable op sequence is reported first
 
